@@ -243,7 +243,7 @@ AdmitS(h, cfg, pkt) ==
   ELSE IF ~h.cfgSet THEN <<"NoRemoteEntityCfgFound", "none">>
   ELSE IF pkt.h.dv # h.req.dId THEN <<"InvalidDestinationId", "none">>
   ELSE IF pkt.h.qv # h.hdr.qv THEN <<"InvalidTransactionSeqNum", "none">>
-  ELSE IF pkt.t \in {"FD", "MD", "EOF", "PROMPT"} THEN <<"InvalidPduForSourceHandler", "none">>
+  ELSE IF pkt.t \in {"FD", "MD", "EOF", "PROMPT"} \/ (pkt.t = "ACK" /\ pkt.acked = "FIN") THEN <<"InvalidPduForSourceHandler", "none">>
   ELSE IF h.hdr.mode = "UNACK" /\ pkt.t \in {"KA", "NAK"} THEN <<"PduIgnoredForSource", "ACK_MODE_PACKET_INVALID_MODE">>
   ELSE IF pkt.t # "NAK" /\ h.step = "WAITING_FOR_EOF_ACK" /\ pkt.t # "ACK" THEN <<"PduIgnoredForSource", "NOT_WAITING_FOR_ACK">>
   ELSE IF pkt.t # "NAK" /\ h.step = "WAITING_FOR_FINISHED" /\ pkt.t # "FIN" THEN <<"PduIgnoredForSource", "NOT_WAITING_FOR_FINISHED_PDU">>
